@@ -369,6 +369,7 @@ func runC14(p *engine.Prog, r *engine.Report) {
 				continue
 			}
 			var probs []string
+			var skipped []string
 			// find the sums: phis adding .Series / .TotalSeries of range values over ...Status
 			sumOf := func(v ssa.Value, want *types.Var) bool {
 				ph, ok := v.(*ssa.Phi)
@@ -380,6 +381,15 @@ func runC14(p *engine.Prog, r *engine.Report) {
 						for _, opnd := range []ssa.Value{bo.X, bo.Y} {
 							if ent, ok := loadOfField(opnd, want); ok {
 								if strings.Contains(sfi.T(ent).S, "."+fStatus.Name()+"[rk:") {
+									// every iteration adds: the addition dominates every back edge of the loop
+									for k, pb := range ph.Block().Preds {
+										if sfi.IsBackEdge(pb, ph.Block()) && ph.Edges[k] != ssa.Value(bo) {
+											skipped = append(skipped, "an entry of the status map can be left out of the sum of "+want.Name()+" (an iteration can continue without the addition at "+p.Rel(bo.Pos())+")")
+										}
+										if sfi.IsBackEdge(pb, ph.Block()) && !(bo.Block() == pb || bo.Block().Dominates(pb)) {
+											skipped = append(skipped, "the addition to the sum of "+want.Name()+" at "+p.Rel(bo.Pos())+" is conditional")
+										}
+									}
 									return true
 								}
 							}
@@ -392,6 +402,7 @@ func runC14(p *engine.Prog, r *engine.Report) {
 				if !sumOf(st.Val, fTotalSeries) {
 					probs = append(probs, "ProcessSeries is "+sfi.T(st.Val).S+", not the sum of TotalSeries over the status map")
 				}
+				probs = append(probs, uniqStrings(skipped)...)
 				r.Check(len(probs) == 0, "R14.5-runtime-info", "reported ProcessSeries in "+engine.FuncName(fn), "store at "+p.Rel(st.Pos()), "Σ TotalSeries over the status map", strings.Join(probs, "; "))
 				continue
 			}
@@ -422,6 +433,7 @@ func runC14(p *engine.Prog, r *engine.Report) {
 					probs = append(probs, "the reported head series can be below Prometheus' own head count: "+strings.Join(b2.why, "; "))
 				}
 			}
+			probs = append(probs, uniqStrings(skipped)...)
 			r.Check(len(probs) == 0, "R14.5-runtime-info", "reported HeadSeries in "+engine.FuncName(fn), "store at "+p.Rel(st.Pos()), "≥ Σ Series over the status map and ≥ Prometheus' head series", strings.Join(probs, "; "))
 		}
 	}
@@ -456,3 +468,15 @@ func extraGuardsExcept(fi *engine.FuncInfo, b *ssa.BasicBlock, allowed []string)
 }
 
 func controlsC14(p *engine.Prog) []Control { return nil }
+
+func uniqStrings(in []string) []string {
+	seen := map[string]bool{}
+	var out []string
+	for _, s := range in {
+		if !seen[s] {
+			seen[s] = true
+			out = append(out, s)
+		}
+	}
+	return out
+}
